@@ -1258,6 +1258,87 @@ def corr_plot(ctx):
         ctx.count(f"plot{which}_{tag}_{model.get('err', 'ok')}")
 
 
+def drawn_lines(S, which, args, ref_ind, phi, scale, color="red"):
+    """def_geo + plot_mode on a new setup object (Agg): every line artist of the axes as a (2, 3) array, in drawing order
+    (geo1: one per arrow first; then the background lines; then the sensor lines; last the three lines of the origin triad)"""
+    import matplotlib.pyplot as plt
+
+    s, _ = call_defgeo(S, which, args, ref_ind)
+    Phi = np.column_stack([np.zeros(len(phi)), np.array(phi, float)])
+    try:
+        if which == 1:
+            fig, ax = s.plot_mode_geo1(_res(Phi), 2, scaleF=scale)
+        else:
+            fig, ax = s.plot_mode_geo2_mpl(_res(Phi), 2, scaleF=scale, color=color)
+        return [np.column_stack([np.asarray(a, float) for a in ln._verts3d]) for ln in ax.lines]
+    finally:
+        plt.close("all")
+
+
+def _same_segs(msegs, real, tol):
+    return len(msegs) == len(real) and all(
+        seg.shape == (2, 3) and _same_orow(m[0], seg[0], tol) and _same_orow(m[1], seg[1], tol) for m, seg in zip(msegs, real))
+
+
+def corr_plot_lines(ctx):
+    """the zero-based index arrays where they are consumed: the line artists of plot_mode_geo1 / plot_mode_geo2_mpl (sensor
+    lines between the sensor positions / the DISPLACED points, background lines between background nodes) against the
+    model's defPlotGeo1Lines / defPlotGeo2Lines; malformed: an index one past the last point, 0 in a one-based sheet (numpy
+    counts -1 from the end), a NaN in the sheet."""
+    rng = ctx.rng
+    S = _setup_cls()
+    TOL = 1e-11
+    for it in range(ctx.n(40, 500)):
+        which = 1 + it % 2
+        spec = (gen_geo1 if which == 1 else gen_geo2)(rng)
+        nn = len(spec["flat"]) if which == 1 else spec["P"]
+        tag = "valid"
+        if it % 5 != 4:
+            spec["opt"]["sensors lines"] = gen_idx_sheet(rng, nn, 2, maxrows=4)
+        if it % 3 == 0:
+            nodes, m = gen_nodes(rng)
+            spec["opt"].update({"BG nodes": nodes, "BG lines": gen_idx_sheet(rng, m, 2, maxrows=3)})
+        # (surfaces are triangulated by matplotlib, which has its own checks: not part of this stream)
+        spec["opt"].pop("BG surfaces", None)
+        spec["opt"].pop("sensors surfaces", None)
+        sl = spec["opt"].get("sensors lines")
+        c = rng.random()
+        if isinstance(sl, dict) and sl["rows"] and c < 0.3:
+            sl = copy.deepcopy(sl)
+            r, k = rng.randrange(len(sl["rows"])), rng.randrange(2)
+            tag = rng.choice(["index_past_end", "zero_in_sheet", "nan_in_sheet"])
+            sl["rows"][r][k] = {"index_past_end": nn + 1, "zero_in_sheet": 0, "nan_in_sheet": NAN}[tag]
+            spec["opt"]["sensors lines"] = sl
+        if which == 1:  # (NaN coordinates are drawn as NaN; keep the points comparable)
+            spec["coord"] = {q: [0.0 if isnan(v) else v for v in row] for q, row in spec["coord"].items()}
+        form = rng.choice([f for f in FORMS if names_form(spec, f) is not None])
+        arrays = rng.random() < 0.5 and tag != "nan_in_sheet"
+        phi = [round(rng.uniform(-3, 3), 3) for _ in spec["flat"]]
+        scale = rng.choice([1, 2, 5, 0.5, -1.5])
+        color = "cmap" if (which == 2 and rng.random() < 0.25) else "red"
+        args = (defgeo1_args if which == 1 else defgeo2_args)(spec, form, arrays)
+        inp = defgeo_inp(which, args, spec["ref_ind"])
+        inp.update(phi=[R(v) for v in phi], scale=R(scale))
+        model = ctx.model(f"c19_plotlines{which}", **inp)
+        res = run(drawn_lines, S, which, args, spec["ref_ind"], phi, scale, color)
+        if "err" in model:
+            ok = err_match(model, res)
+        elif not res[0]:
+            ok = False
+        else:
+            segs = res[1]
+            na = len(spec["flat"]) if which == 1 else 0
+            nb, ns = len(model["ok"]["bg"]), len(model["ok"]["sens"])
+            # set_ax_options (add_orig) draws the three lines of the origin triad last
+            ok = (len(segs) == na + nb + ns + 3 and _same_segs(model["ok"]["bg"], segs[na:na + nb], TOL)
+                  and _same_segs(model["ok"]["sens"], segs[na + nb:na + nb + ns], TOL))
+            ctx.count(f"plotlines{which}_sens_{min(ns, 3)}_bg_{min(nb, 2)}")
+        ctx.corr(f"plot_mode_geo{which}[lines]", ok, inp, model,
+                 {"err": res[1]} if not res[0] else {"lines": [g.tolist() for g in res[1]]},
+                 (tag, form, arrays, color, "sensors lines" in spec["opt"], "BG lines" in spec["opt"], model.get("err", "ok")))
+        ctx.count(f"plotlines{which}_{tag}_{model.get('err', 'ok')}")
+
+
 def correspondence(ctx):
     gen = _gen()
     corr_flatten(ctx, gen)
@@ -1267,6 +1348,7 @@ def correspondence(ctx):
     corr_by_file(ctx)
     corr_mapphi(ctx, gen)
     corr_plot(ctx)
+    corr_plot_lines(ctx)
 
 
 # ----------------------------------------------------------------------------- oracle (from the statement)
